@@ -214,14 +214,16 @@ pub fn build(spec: &PatSpec, lang: SupportLang) -> Option<Pattern<SupportLang>> 
 
 /// The same precondition judged without ast-grep's pattern conversion: the pattern text (sigils
 /// rewritten to the language's expando character, which is a property of the language, not of
-/// the matcher) is parsed by tree-sitter alone, and some node of that parse must have the shape
-/// of the code node `n`, with a leaf spelling the variable where each hole / run was. Used when
+/// the matcher) is parsed by tree-sitter alone, and the node a plain pattern stands for must have
+/// the shape of the code node `n`, with a leaf spelling the variable where each hole / run was. Used when
 /// the converted pattern tree differs from the code (e.g. a conversion that drops nodes): the
 /// property's precondition speaks about how the pattern *parses*.
 pub fn raw_shape_ok(lang: SupportLang, src: &str, spec: &PatSpec, n: &TsNode) -> bool {
   use ast_grep_core::Language;
-  let processed = lang.pre_process_pattern(&spec.text).to_string();
+  // the code is `$`-free, so every `$` of the pattern text belongs to one of our own variables:
+  // the expando spelling is obtained without the implementation's pre-processing
   let ex = lang.expando_char();
+  let processed = spec.text.replace('$', &ex.to_string());
   let sg = tsutil::parse(lang, &processed);
   let root = sg.root().get_ts_node();
   if tsutil::subtree_has_error(&root) {
@@ -265,7 +267,13 @@ pub fn raw_shape_ok(lang: SupportLang, src: &str, spec: &PatSpec, n: &TsNode) ->
     }
     j == qk.len()
   }
-  tsutil::preorder(root).iter().any(|q| eq(src, &processed, spec, ex, n, q))
+  // a plain pattern stands for the innermost node of the leading single-child chain (the
+  // documented convention: the first node with more than one child, or the leaf)
+  let mut q = root;
+  while q.child_count() == 1 {
+    q = q.child(0).unwrap();
+  }
+  eq(src, &processed, spec, ex, n, &q)
 }
 
 /// The shape precondition of C02: the pattern tree equals the subtree of the node it was cut
